@@ -256,7 +256,7 @@ def check(model: Model, run: Run) -> None:
     _r5_unknown_type(model, run, folder)
 
     # ------------------------------------------------------------------ R6 msg_size
-    run.rule('C06.R6', 'the only write to Connection.msg_size outside __init__ takes negotiated.msg_size and follows negotiated.received(...) in the same function', floor=1)
+    run.rule('C06.R6', 'the only write to Connection.msg_size outside __init__ takes negotiated.msg_size and, on every path (correlated guards), follows both negotiated.sent(...) and negotiated.received(...)', floor=1)
     _r6_msg_size(model, run, folder)
 
     # ------------------------------------------------------------------ R7 cancellable partial read
@@ -420,14 +420,36 @@ def _r6_msg_size(model: Model, run: Run, folder: Folder) -> None:
                     run.analysed(fi)
                     val = n.value
                     src_ok = val is not None and (dotted(val) or '').endswith('negotiated.msg_size')
-                    recv_calls = model.calls_to(fi.module, fi.node, 'Negotiated.received')
-                    before = any(c.lineno < n.lineno for c in recv_calls)
+                    # on every path to the assignment both OPENs must have been handed to the negotiation
+                    from ..cfg import CFG
+                    from ..typestate import propagate
+                    from .C05 import _calls_in_stmt
+
+                    cfg = CFG(fi.node)
+                    seen_states: list[frozenset] = []
+
+                    def transfer(node, val_, _n=n, _fi=fi):
+                        cur = val_
+                        if node.ast is _n:
+                            seen_states.append(cur)
+                        for call in _calls_in_stmt(node):
+                            if model.call_matches(_fi.module, call, 'Negotiated.received'):
+                                cur = cur | {'received'}
+                            if model.call_matches(_fi.module, call, 'Negotiated.sent'):
+                                cur = cur | {'sent'}
+                        return [cur]
+
+                    propagate(cfg, frozenset(), transfer)
+                    complete = bool(seen_states) and all(st >= {'sent', 'received'} for st in seen_states)
+                    missing = sorted({'sent', 'received'} - (frozenset.intersection(*seen_states) if seen_states else frozenset()))
                     run.check(
-                        src_ok and before,
+                        src_ok and complete,
                         fi.qualname,
                         norm(n),
                         fi.loc(n),
-                        'Connection.msg_size may only be raised to negotiated.msg_size after negotiated.received() in the same function',
+                        'Connection.msg_size may only be raised to negotiated.msg_size once the negotiation is complete: on some '
+                        'path to this assignment negotiated.%s() has not run yet, so negotiated.msg_size still holds the 4096 '
+                        'default and extended messages negotiated by both sides are refused with 1/2' % ('/'.join(missing) or '?'),
                     )
     if n_writes == 0:
         run.violation(CONN, 'msg_size is never raised', model.cls(CONN).loc(), 'after negotiating extended messages the connection would still refuse messages above 4096 bytes')
